@@ -18,7 +18,7 @@ ONE_SKEL = ('IFT', 'LOOP1', 'FUNC', 'EVAL')
 TWO_SKEL = ('IFELSE_T', 'IFELSE_F', 'TRY')
 
 
-LEAVES_WIT = LEAVES_FULL + ('WE', 'WP', 'WRET', 'SPEND', 'DROP')
+LEAVES_WIT = LEAVES_FULL + ('WE', 'WP', 'WRET', 'SPEND', 'DROP', 'EMPTY')
 
 
 def _grammar(name):
@@ -176,6 +176,8 @@ class Render:
             return op('DEF') + b'\x05' + blk(b'') + op('CALL') + b'\x05'
         if k == 'DROP':
             return op('POP0')
+        if k == 'EMPTY':
+            return b'\x03\x00'        # PUSH1 of the empty item
         if k == 'VERIFYW':
             return op('VERIFY')
         if k == 'IFT':
